@@ -1,12 +1,16 @@
 (* C04  Layers above the selection are withheld; switches occur only at legal
    points.  Model/Layers.v (the layerInfo word, the layer part of
    rtpDownTrack.Write, adjustLayer, updateRate, the layer update of
-   replaceTracks), Model/Forward.v.  Atomic-event semantics: each event below
-   runs atomically; the code updates the word by load-modify-store from three
-   goroutines, which is known finding F14 ([C04_split_refuted]). *)
+   replaceTracks), Model/Forward.v.  The code changes the layer word only
+   through updateLayerInfo (compare-and-swap), so every schedule of the three
+   goroutines that touch it is a list of the atomic events of
+   Proofs/LayersAtomic.v; [C04_schedules], [C04_schedule_steps] and
+   [C04_limit_never_lost] quantify over all such lists.  (Before the fix of
+   finding F14 the word was updated by load-modify-store and a request could
+   be lost.) *)
 From Coq Require Import ZArith List Bool.
 From Galene Require Import Lib.Word Generated.Consts Model.PacketMap Model.Layers Model.Forward.
-From Galene Require Import Proofs.Layers Proofs.ForwardProps.
+From Galene Require Import Proofs.Layers Proofs.LayersAtomic Proofs.ForwardProps.
 Import ListNotations.
 Open Scope Z_scope.
 
@@ -73,15 +77,56 @@ Theorem C04_rate_bounds : forall rate0 loss actual,
 Proof. exact update_rate_bounds. Qed.
 Print Assumptions C04_rate_bounds.
 
-(* F14: with separate loads and stores a stale store loses an update *)
-Theorem C04_split_refuted :
-  let loaded := split_witness_layer in
-  let other := set_limit loaded true in
-  let stored := fst (fst (write_layer loaded split_witness_flags 0 524288)) in
-  limitSid other = true /\ limitSid stored = false /\
-  limitSid (fst (fst (write_layer other split_witness_flags 0 524288))) = true.
-Proof. exact split_lost_update. Qed.
-Print Assumptions C04_split_refuted.
+(* ---- all schedules ---- *)
+
+(* one uninterrupted Write is the atomic events AW1; AAdj; AW2 (AW2 alone
+   when no new top layer appears): this ties the atomic events to
+   [write_layer], which the correspondence check compares with the code *)
+Theorem C04_write_is_atomic_events : forall l f r m,
+  LInv l -> 0 <= f_tid f < 16 -> 0 <= f_sid f < 16 ->
+  fst (fst (write_layer l f r m)) =
+  arun l (if (maxTid l <? f_tid f) || (maxSid l <? f_sid f)
+          then [AW1 f; AAdj r m; AW2 f] else [AW2 f]).
+Proof. exact write_layer_arun. Qed.
+Print Assumptions C04_write_is_atomic_events.
+
+(* over ALL lists of atomic events (every interleaving of the writer's two
+   closures with the RTCP listener's adjustments and with request changes):
+   the bounds hold *)
+Theorem C04_schedules : forall es, Forall wf_aevent es -> LInv (arun layer0 es).
+Proof. intros es H. exact (arun_LInv es layer0 H LInv_layer0). Qed.
+Print Assumptions C04_schedules.
+
+(* and every single atomic event moves the current layers only at a legal
+   point: the spatial layer only in the writer's second closure at the first
+   packet of a keyframe (or eagerly in its first closure), the temporal layer
+   down only at the start of a frame, up only at a keyframe or an up-switch
+   point not above the wanted layer (or eagerly); the low-quality request
+   changes only when the client changes it *)
+Theorem C04_schedule_steps : forall l e, wf_aevent e -> LInv l ->
+  let l' := astep l e in
+  (sid l' <> sid l ->
+     (exists f, e = AW2 f /\ f_start f = true /\ f_keyframe f = true) \/
+     (exists f, e = AW1 f /\ eager_s l f)) /\
+  (tid l' < tid l -> exists f, e = AW2 f /\ f_start f = true) /\
+  (tid l < tid l' ->
+     (exists f, e = AW1 f /\ eager_t l f) \/
+     (exists f, e = AW2 f /\ f_start f = true /\
+        (f_keyframe f = true \/ (f_tidUpSync f = true /\ tid l' = f_tid f /\ f_tid f <= wantedTid l')))) /\
+  (limitSid l' <> limitSid l -> exists b, e = ALim b) /\
+  maxSid l <= maxSid l' /\ maxTid l <= maxTid l'.
+Proof. exact astep_switch. Qed.
+Print Assumptions C04_schedule_steps.
+
+(* a low-quality request is never lost, whatever is interleaved after it, and
+   the first packet of any later keyframe brings the receiver to layer 0 *)
+Theorem C04_limit_never_lost : forall es l f,
+  Forall wf_aevent es -> Forall not_unlimit es -> LInv l -> 0 <= f_tid f < 16 ->
+  let l' := arun (astep l (ALim true)) es in
+  limitSid l' = true /\ wantedSid l' = 0 /\
+  (f_start f = true -> f_keyframe f = true -> sid (astep l' (AW2 f)) = 0).
+Proof. exact limit_never_lost. Qed.
+Print Assumptions C04_limit_never_lost.
 
 (* non-vacuity: two temporal layers, congestion, the receiver goes down to
    tid 0 at the next frame start and the in-order tid-1 packet is marked *)
